@@ -60,6 +60,31 @@ Theorem C11_write_cursor_in_buffer : forall (sz : N) (es : list (list byte)) (mx
 Proof. exact write_cursor_in_buffer. Qed.
 Print Assumptions C11_write_cursor_in_buffer.
 
+(* "Every value type the binary stream accepts is read back exactly as written", all LENGTHS, into ANY destination:
+   the std::vector a vector is read into may hold anything before the call (a loop that reuses one destination, an
+   object that loads a second state).  After a read that delivers, the destination holds exactly the decoded
+   elements -- none of its previous contents, also when zero elements are decoded (t.resize(0)) --, so the result
+   of two reads from the same stream state into two different destinations is the same; a read that does not
+   deliver leaves the destination untouched. *)
+Theorem C11_vector_read_independent_of_destination :
+  forall (s : mstream) (sz : N) (d1 d2 v : list (list byte)) (s1 : mstream) (t1 : list (list byte)),
+  read_vector_into s sz d1 = (RVec v, s1, t1) ->
+  t1 = v /\ read_vector_into s sz d2 = (RVec v, s1, v).
+Proof. exact read_vector_into_independent. Qed.
+Print Assumptions C11_vector_read_independent_of_destination.
+
+(* with the round trip: a written vector (any element size, any length, 0 included) read into any destination *)
+Theorem C11_vector_roundtrip_any_destination : forall (sz : N) (es dest : list (list byte)) (mx : N),
+  item_ok (IVec sz es) -> 8 + sz * blen es <= mx ->
+  let w := write_vector (empty_stream mx) sz es in
+  exists s', read_vector_into (input_stream (fst (output w))) sz dest = (RVec es, s', es).
+Proof.
+  intros sz es dest mx Hok Hm w. destruct (vector_roundtrip sz es mx Hok Hm) as (_ & s' & Hr & _).
+  pose proof (read_vector_into_spec (input_stream (fst (output w))) sz dest) as Hs. fold w in Hr.
+  rewrite Hr in Hs. now exists s'.
+Qed.
+Print Assumptions C11_vector_roundtrip_any_destination.
+
 (* Every read, whatever the bytes and whatever sequence of reads (objects of any size, strings,
    vectors of any element size, continuing after failures), touches only bytes of the buffer and
    leaves the read position inside it. *)
@@ -529,3 +554,9 @@ Example C11_example_counted_hills :
   (exists s, bias_read (fun _ _ => Some true) (fun _ _ => true) (fun _ c => find_numhills c) ex_bb
                (input_stream (enc_header [109;101;116;97] ex_conf_counted ++ enc_hills [ex_hill 1; ex_hill 2])) = BOk s false).
 Proof. split; [|split; [|split]]; vm_compute; try reflexivity. eexists. reflexivity. Qed.
+
+(* an empty vector read into a destination that holds three elements empties it *)
+Example C11_example_empty_vector_into_dirty_destination :
+  snd (read_vector_into (input_stream (le64 0)) 4 [[238;238;238;238]; [238;238;238;238]; [238;238;238;238]]) = [] /\
+  snd (read_vector_into (input_stream (le64 1 ++ [1;2;3;4])) 4 [[238;238;238;238]; [238;238;238;238]]) = [[1;2;3;4]].
+Proof. split; vm_compute; reflexivity. Qed.
